@@ -88,15 +88,16 @@ type AEvent struct {
 // AScenario is one world-A run
 type AScenario struct {
 	Profile       string     `json:"profile"`
-	Keys          []string   `json:"keys"`                              // orchestration key fields
-	MetricKeys    []string   `json:"metric_keys,omitempty"`             // metricKeys of the configuration (default: host)
-	Out2          bool       `json:"second_output,omitempty"`           // a second output/buffer pair with different serialization settings (reference count 2 per record)
-	AcceptErrs []int `json:"accept_errors_before_connection,omitempty"` // the accept(2) that would return the k-th connection first fails once with a transient error (EMFILE)
-	Fine          bool       `json:"fine_yields,omitempty"`             // every larger function entry of the agent is a preemption point in this run
-	Datadog       bool       `json:"datadog_output,omitempty"`          // a Datadog output/buffer pair whose consumer never takes a chunk: every chunk it makes ends up in its queue root
-	Poison        bool       `json:"poison_released_buffers,omitempty"` // released backing buffers are overwritten with 0xEE (in the other runs they keep their bytes until reused, which is what lets a stale reference read ANOTHER record)
-	Tag           string     `json:"tag"`                               // tag template
-	KeyTuples     [][]string `json:"key_tuples"`                        // values of (app, level-severity, pid) per tuple index; level is a severity number as string
+	Keys          []string   `json:"keys"`                                      // orchestration key fields
+	MetricKeys    []string   `json:"metric_keys,omitempty"`                     // metricKeys of the configuration (default: host)
+	Out2          bool       `json:"second_output,omitempty"`                   // a second output/buffer pair with different serialization settings (reference count 2 per record)
+	UnescIn       bool       `json:"unescape_in_extractions,omitempty"`         // the unescape step also sits among the input extractions, where records queue up after it
+	AcceptErrs    []int      `json:"accept_errors_before_connection,omitempty"` // the accept(2) that would return the k-th connection first fails once with a transient error (EMFILE)
+	Fine          bool       `json:"fine_yields,omitempty"`                     // every larger function entry of the agent is a preemption point in this run
+	Datadog       bool       `json:"datadog_output,omitempty"`                  // a Datadog output/buffer pair whose consumer never takes a chunk: every chunk it makes ends up in its queue root
+	Poison        bool       `json:"poison_released_buffers,omitempty"`         // released backing buffers are overwritten with 0xEE (in the other runs they keep their bytes until reused, which is what lets a stale reference read ANOTHER record)
+	Tag           string     `json:"tag"`                                       // tag template
+	KeyTuples     [][]string `json:"key_tuples"`                                // values of (app, level-severity, pid) per tuple index; level is a severity number as string
 	Mode          string     `json:"mode"`
 	MaxDurMs      int        `json:"max_duration_ms"`
 	FlushMs       int        `json:"flush_ms"`
@@ -188,6 +189,10 @@ func (s *AScenario) configYAML(variant string) string {
 	case "invalid":
 		return s.configYAML("") + "\nthis is: [not valid yaml\n"
 	}
+	unescIn := ""
+	if s.UnescIn {
+		unescIn = "      - type: unescape\n        key: log\n"
+	}
 	maxDur := fmt.Sprintf("%dms", s.MaxDurMs)
 	metricKey := "host"
 	if len(s.MetricKeys) > 0 {
@@ -203,7 +208,7 @@ inputs:
     extractions:
       - type: delFields
         keys: [facility, extradata]
-      - type: addFields
+%s      - type: addFields
         fields:
           extra4: in-$app:$pid
       - type: extractHead
@@ -259,7 +264,7 @@ transformations:
         tls: false
         secret: ""
         maxDuration: %s
-`, fields, aInputAddr, strings.Join(s.Keys, ", "), s.Tag, metricKey, extra, aBufRoot, s.MaxBufBytes, s.Mode, aUpstreamAddr, maxDur) + s.secondOutputYAML() + s.datadogOutputYAML()
+`, fields, aInputAddr, unescIn, strings.Join(s.Keys, ", "), s.Tag, metricKey, extra, aBufRoot, s.MaxBufBytes, s.Mode, aUpstreamAddr, maxDur) + s.secondOutputYAML() + s.datadogOutputYAML()
 }
 
 func (s *AScenario) datadogOutputYAML() string {
@@ -779,6 +784,7 @@ func (w *worldA) tweak(r *simrt.Rand, s *AScenario, end int) {
 		s.PoolMode = []int{1, 1, 0}[r.Intn(3)]
 		s.Out2 = r.Bool(50)
 		s.Poison = r.Bool(50)
+		s.UnescIn = r.Bool(50)
 		for ci := range s.Clients {
 			for bi := range s.Clients[ci].Bursts {
 				bu := &s.Clients[ci].Bursts[bi]
@@ -823,6 +829,9 @@ func (w *worldA) tweak(r *simrt.Rand, s *AScenario, end int) {
 			s.Clients[ci].HoldOpen = r.Bool(50)
 		}
 		s.Out2 = r.Bool(30) // two buffers to shut down, one after the other
+		if r.Bool(30) {
+			s.QueueCap = r.Range(2, 8) // "every amount of pending data": a queue that is full at the moment of the stop
+		}
 	case "c19":
 		// the equations are asserted on runs without reachable limits
 		if r.Bool(50) {
@@ -979,7 +988,7 @@ type aRun struct {
 	stops                []aStop
 	notes                []string
 	stopping             bool
-	srv2                 *aServer // upstream of the second output, when the scenario has one
+	srv2                 *aServer     // upstream of the second output, when the scenario has one
 	acceptSeen           int          // connections the agent's accept has returned so far
 	acceptErrDone        map[int]bool // injected accept errors that have fired
 	gaveUpConnecting     bool         // a client could not reach the listener for 100 simulated seconds while the agent was running
